@@ -251,3 +251,132 @@ register(Contract(
     modifies={'components_', 'preprocessor_', 'n_features_in_'},
     prop=['C03', 'C13', 'C17']))
 C.unit('C03', 'sdml:_BaseSDML._fit')
+
+
+# ------------------------------------------------------------------------------------------- NCA / MLKR / LMNN
+INITS_L = [('auto', Str('auto')), ('pca', Str('pca')), ('lda', Str('lda')), ('identity', Str('identity')), ('random', Str('random')),
+           ('array', Arr(2, owner=frozenset({('attr', 'init')}), dims=['id0', 'id1']))]
+
+
+def ncomp_specs():
+  return [('allfeatures', NoneT()), ('k', Int())]
+
+
+def nca_hyper(init, nc, seed='seed'):
+  return {'init': init, 'n_components': nc, 'max_iter': Int(0), 'tol': NoneT(), 'verbose': Const(VBool(False)),
+          'random_state': Int() if seed == 'seed' else NoneT()}
+
+
+def k_of(a, dname='X'):
+  nc = a.self.n_components
+  return getattr(a, dname).dim(1) if nc is None else nc
+
+
+def point_cases(cls, hyper_fn, inits, ykind='i', with_lda=True):
+  out = []
+  for iname, ispec in inits:
+    if iname == 'lda' and not with_lda:
+      continue
+    for nn, ns in ncomp_specs():
+      for h in ('fresh', 'refit'):
+        if h == 'refit' and (iname not in ('auto', 'array')):
+          continue
+        out.append(Case('%s-%s-%s' % (iname, nn, h), {'self': est(cls, hyper_fn(ispec, ns), h), 'X': Arr(2, dims=['n', 'd']), 'y': Arr(1, ykind, dims=['n'])}))
+  return out
+
+
+register(Contract(
+    'nca:NCA.fit',
+    cases=point_cases('NCA', nca_hyper, INITS_L),
+    ensures=model_clauses(lambda a: k_of(a), lambda a: a.X.dim(1)),
+    events={'randomness-seeded': seeded, 'bookkeeping-attributes-assigned-by-every-fit': assigns('components_', 'n_iter_')},
+    raises=dict(FIT_RAISES),
+    modifies={'components_', 'preprocessor_', 'n_features_in_', 'n_iter_'},
+    prop=['C03', 'C10', 'C17']))
+C.unit('C03', 'nca:NCA.fit')
+
+
+def mlkr_hyper(init, nc, seed='seed'):
+  return {'n_components': nc, 'init': init, 'tol': NoneT(), 'max_iter': Int(0), 'verbose': Const(VBool(False)),
+          'random_state': Int() if seed == 'seed' else NoneT()}
+
+
+register(Contract(
+    'mlkr:MLKR.fit',
+    cases=point_cases('MLKR', mlkr_hyper, INITS_L, ykind='f', with_lda=False),
+    ensures=model_clauses(lambda a: k_of(a), lambda a: a.X.dim(1)),
+    events={'randomness-seeded': seeded, 'bookkeeping-attributes-assigned-by-every-fit': assigns('components_', 'n_iter_')},
+    raises=dict(FIT_RAISES),
+    modifies={'components_', 'preprocessor_', 'n_features_in_', 'n_iter_'},
+    prop=['C03', 'C10', 'C17']))
+C.unit('C03', 'mlkr:MLKR.fit')
+
+
+def lmnn_hyper(init, nc, seed='seed'):
+  return {'init': init, 'k': Str('deprecated'), 'n_neighbors': Int(1), 'min_iter': Int(0), 'max_iter': Int(0), 'learn_rate': Real(),
+          'regularization': Real(), 'convergence_tol': Real(), 'verbose': Const(VBool(False)), 'n_components': nc,
+          'random_state': Int() if seed == 'seed' else NoneT()}
+
+
+register(Contract(
+    'lmnn:LMNN.fit',
+    cases=point_cases('LMNN', lmnn_hyper, INITS_L),
+    ensures=model_clauses(lambda a: k_of(a), lambda a: a.X.dim(1)),
+    events={'randomness-seeded': seeded, 'bookkeeping-attributes-assigned-by-every-fit': assigns('components_', 'n_iter_', 'labels_')},
+    # TypeError: `_inplace_paired_L2(*Lx[impostors])` with an empty impostor LIST, reachable only for single-class y (outside the
+    # property's quantifier); the executor does not relate the length of that list to the number of classes
+    raises=dict(FIT_RAISES, AssertionError=May(), TypeError=May()),
+    modifies={'components_', 'preprocessor_', 'n_features_in_', 'n_iter_', 'labels_'},
+    prop=['C03', 'C10', 'C17']))
+C.unit('C03', 'lmnn:LMNN.fit')
+
+
+# ------------------------------------------------------------------------------------------------ LFDA / RCA
+def lfda_cases():
+  out = []
+  for en in ('weighted', 'orthonormalized', 'plain'):
+    for kn, ks in (('kdefault', NoneT()), ('k', Int(1))):
+      for nn, ns in ncomp_specs():
+        for h in ('fresh', 'refit'):
+          if h == 'refit' and (en != 'weighted' or kn != 'kdefault'):
+            continue
+          out.append(Case('%s-%s-%s-%s' % (en, kn, nn, h),
+                          {'self': est('LFDA', {'n_components': ns, 'embedding_type': Str(en), 'k': ks}, h), 'X': Arr(2, dims=['n', 'd']),
+                           'y': Arr(1, 'i', dims=['n'])}, pre=lambda a: a.X.dim(1) >= 2))
+  return out
+
+
+register(Contract(
+    'lfda:LFDA.fit',
+    cases=lfda_cases(),
+    ensures=model_clauses(lambda a: k_of(a), lambda a: a.X.dim(1)),
+    events={'randomness-seeded': seeded, 'bookkeeping-attributes-assigned-by-every-fit': assigns('components_')},
+    raises=dict(FIT_RAISES),
+    modifies={'components_', 'preprocessor_', 'n_features_in_'},
+    prop=['C03', 'C09', 'C17']))
+C.unit('C03', 'lfda:LFDA.fit')
+
+
+def rca_cases():
+  return [Case('%s-%s' % (nn, h), {'self': est('RCA', {'n_components': ns}, h), 'X': Arr(2, dims=['n', 'd']), 'chunks': Arr(1, 'i', dims=['n'])})
+          for nn, ns in ncomp_specs() for h in ('fresh', 'refit')]
+
+
+register(Contract(
+    'rca:RCA.fit',
+    cases=rca_cases(),
+    ensures=model_clauses(lambda a: k_of(a), lambda a: a.X.dim(1)),
+    events={'randomness-seeded': seeded, 'bookkeeping-attributes-assigned-by-every-fit': assigns('components_')},
+    raises=dict(FIT_RAISES),
+    modifies={'components_', 'preprocessor_', 'n_features_in_'},
+    prop=['C03', 'C09', 'C17']))
+C.unit('C03', 'rca:RCA.fit')
+
+
+from .loops import invariant
+
+
+@invariant('lfda:LFDA.fit', 0, 'range(num_classes)')
+def _lfda_k_nonneg(v, head):
+  """the neighbour index stays a valid non-negative index (every class has at least one member)"""
+  return v.k >= 0
